@@ -112,6 +112,17 @@ UNITS = {
              'find': 'Mode::A => &self.word_info.a_unit_split(),', 'replace': 'Mode::A => &self.word_info.b_unit_split(),'},
         ],
     },
+    'v_katakana': {
+        'tpl': 'units/v_katakana.rs.tpl', 'rlimit': 60,
+        'mutants': [
+            {'name': 'forward scan runs one past the end', 'file': 'sudachi/src/plugin/path_rewrite/join_katakana_oov/mod.rs',
+             'find': 'if end >= path.len() {', 'replace': 'if end > path.len() {'},
+            {'name': 'merge range end off by one', 'file': 'sudachi/src/plugin/path_rewrite/join_katakana_oov/mod.rs',
+             'find': 'path = concat_oov_nodes(path, begin, end, self.oov_pos_id)?;', 'replace': 'path = concat_oov_nodes(path, begin, end + 1, self.oov_pos_id)?;'},
+            {'name': 'bow skip may pass the end', 'file': 'sudachi/src/plugin/path_rewrite/join_katakana_oov/mod.rs',
+             'find': 'while begin != end && !self.can_oov_bow_node(text, &path[begin]) {', 'replace': 'while begin != end + 1 && !self.can_oov_bow_node(text, &path[begin]) {'},
+        ],
+    },
 }
 
 NOT_APPLICABLE = {
@@ -121,6 +132,13 @@ for _i in range(1, 21):
     NOT_APPLICABLE.setdefault('C%02d' % _i, 'not yet under contract in this revision of /verif (see DESIGN.md build order)')
 
 PROPS = {
+    'C14': {
+        'level_text': 'Verus proves on the real concat_nodes / concat_oov_nodes (merged_at: the run old[b..e) becomes one token with exactly the union of the byte and code-point ranges, all other tokens unchanged and in order) and on the real JoinKatakanaOovPlugin::rewrite_gen (every index in range, the scan terminates, and the output is a coarsening of the input path: predicate is_coarsening) for every path and every text',
+        'level_note': 'assumed: character-class queries (InputTextIndex) are pure functions of the text; nodes of the incoming path are non-empty, contiguous, inside the text and have head_word_length <= byte span (path_ok; established by the lattice/tokenizer, not yet chained); JoinNumericPlugin::rewrite_gen is being brought under contract separately',
+        'verus': ['v_wordid', 'v_node', 'v_katakana'],
+        'kani': [],
+        'assumptions': ['path_ok of the path handed to the plugins', 'InputTextIndex methods are pure'],
+    },
     'C09': {
         'level_text': 'Verus proves on the real NodeSplitIterator::next / ResultNode::split / num_splits / split_path: in mode C the path is returned unchanged; otherwise the result is the input path with every token declaring two or more units replaced in place by sub-tokens whose word ids are exactly the declared units in order and whose byte and code-point ranges chain from the parent start to the parent end (predicate is_expansion), tokens declaring fewer units are unchanged - hence C boundaries are a subset of A/B boundaries',
         'level_note': 'hypothesis units_fit = C09\'s "declared units concatenate to the key" (intermediate ends stay inside the parent); assumed: LexiconSet::get_word_info_subset succeeds and is a pure function of (id, subset); InputBuffer::ch_idx contract; Vec::extend(iterator) = repeated next() (written out and verified as extend_from_split); MorphemeList::split_into / Python split not yet under contract',
